@@ -3,8 +3,9 @@
    lemma of the development, followed by Print Assumptions. *)
 Require Import List ZArith Arith.
 From Dasp Require Import Base.Res Base.ListX Ring.Bounded Ring.BoundedSpec Ring.BoundedProofs
-  Ring.Fixed Ring.FixedSpec Ring.FixedProofs Ring.RingExamples
+  Ring.Fixed Ring.FixedSpec Ring.FixedProofs Ring.RingExamples Ring.IndexArith
   Ring.RingPrim Ring.RingGenGlue Ring.RingGenEquiv.
+From Dasp Require Ring.RingRun Ring.RingRunNorm.
 From DaspGen Require Import RingGen.
 Import ListNotations.
 
@@ -83,6 +84,39 @@ Theorem c06_fixed_views : forall (A : Type) (f : fixed A), InvF f ->
   (exists l1 l2, fslices f = Ok (l1, l2) /\ l1 ++ l2 = fq f).
 Proof. intros A f I. exact (conj (fiter_refines f I) (conj (fun k => fiter_loop_refines f k I) (fslices_refines f I))). Qed.
 Print Assumptions c06_fixed_views.
+
+(* ---- the 64-bit reading of the index arithmetic (usize), for EVERY index a caller can pass ----
+   In every valid state no addition the source performs on indices can overflow -- neither with overflow checks
+   (no panic) nor without (no wrap) -- so the nat models above are exact.  Slice lengths are at most 2^63 (Rust
+   allocations hold at most isize::MAX bytes; the bound can only be exceeded by zero-sized element types). *)
+Theorem c06_index_arith_no_overflow : forall (dbg : bool) (a index n : Z),
+  (0 <= index < 2 ^ 64 -> n <= 2 ^ 63 ->
+   (0 <= a < n -> U.fixed_index dbg a index n = Ok ((a + index) mod n)) /\
+   (forall len, 0 <= a < n -> 0 <= index < len -> len <= n -> U.bounded_index dbg a index n = Ok ((a + index) mod n)) /\
+   (forall len, 0 <= a < n -> 0 <= len <= n ->
+      U.bounded_push_index dbg a len n = Ok ((a + len) mod n) /\ U.uadd dbg a 1 = Ok (a + 1)))%Z.
+Proof. exact U.index_arith_no_overflow. Qed.
+Print Assumptions c06_index_arith_no_overflow.
+
+(* defect F9 (repaired in /repo by daaa156): the earlier form (first + index) % len, on first = 1, N = 3,
+   index = usize::MAX: overflow panic with checks, element 0 instead of element 1 without *)
+Theorem c06_fixed_get_old_form_refuted :
+  (U.fixed_index_old true 1 (2 ^ 64 - 1) 3 = Panic POverflow /\
+   U.fixed_index_old false 1 (2 ^ 64 - 1) 3 = Ok 0 /\
+   (1 + (2 ^ 64 - 1)) mod 3 = 1 /\ U.fixed_index true 1 (2 ^ 64 - 1) 3 = Ok 1 /\ U.fixed_index false 1 (2 ^ 64 - 1) 3 = Ok 1)%Z.
+Proof. exact U.fixed_index_old_refuted. Qed.
+Print Assumptions c06_fixed_get_old_form_refuted.
+
+(* the normalisation that lets the correspondence run indices near usize::MAX through the nat model is invisible *)
+Theorem c06_run_index_normalisation_sound : forall (b : bounded Z) (f : fixed Z) (o : RingRun.zop),
+  (len b <= max_len b ->
+   match RingRun.to_op (RingRun.bnorm b o), RingRun.to_op o with
+   | Some p', Some p => step b p' = step b p | None, None => True | _, _ => False end) /\
+  (RingRunNorm.zop_index_nonneg o ->
+   match RingRun.to_fop (RingRun.fnorm f o), RingRun.to_fop o with
+   | Some p', Some p => fstep f p' = fstep f p | None, None => True | _, _ => False end).
+Proof. exact RingRunNorm.run_index_normalisation_sound. Qed.
+Print Assumptions c06_run_index_normalisation_sound.
 
 (* ---- the tie by translation: gen/RingGen.v is regenerated from dasp_ring_buffer/src/lib.rs on every
    run (translate/ring2coq.py); the model the theorems above are about IS that translation. ---- *)
